@@ -38,7 +38,7 @@ def FLOORS(tier):
     q = tier == "quick"
     return {"det:in-process": 400 if q else 15000, "det:fresh-process": 400 if q else 15000,
             "det:without-initial_state": 150, "T0:reference-sweeps": 150 if q else 6000, "T0:flips-seen": 300,
-            "chi2:tests": 40 if q else 1500, "chi2:random-order": 12, "chi2:in-order": 12, "chi2:cubic": 10,
+            "chi2:tests": 40 if q else 1500, "chi2:random-order": 12, "chi2:in-order": 12, "chi2:cubic": 8,
             "chi2:boolean-front-end": 8, "hook-dE-checks": 10 ** 6 if q else 5 * 10 ** 7, "hook:big-workloads": 8}
 
 
@@ -244,12 +244,14 @@ def case_t0(ctx, rng, idx):
 
 
 def case_chi2(ctx, rng, idx):
-    fn = rng.choice(["anneal_quso", "anneal_puso", "anneal_puso", "anneal_qubo", "anneal_pubo"])
+    fn = rng.choice(["anneal_quso", "anneal_puso", "anneal_puso", "anneal_qubo", "anneal_pubo", "anneal_pubo"])
     spin = A.is_spin(fn)
     d2 = A.is_deg2(fn)
     n = rng.randint(2, 4 if rng.random() < 0.4 else 3)
     tn = {"anneal_quso": "QUSOMatrix", "anneal_puso": "PUSOMatrix", "anneal_qubo": "QUBOMatrix", "anneal_pubo": "PUBOMatrix"}[fn]
     keys = {tuple(sorted(set(rng.randrange(n) for _ in range(rng.randint(1, 2 if d2 else 3))))) for _ in range(rng.randint(2, 5))}
+    if not d2 and n >= 3 and rng.random() < 0.6:
+        keys.add(tuple(sorted(rng.sample(range(n), 3))))
     keys |= {(i,) for i in range(n) if not any(i in k for k in keys)}
     terms = {k: rng.choice([-1, -0.5, 0.3, 0.7, 1, 0.6, -0.4, 1.5]) for k in keys}
     M = getattr(L, tn)(terms)
